@@ -873,16 +873,70 @@ class LeCocDriver(LeSigDriver):
             if self.open and dcid == self.open[0]:
                 self.open = None
 
+    def tx(self, data):
+        if self.open:
+            self.atk.send(self.open[1], data)
+            self._model(data)
+
+    # reference model of what a correct receiver has pending after the hostile K-frames
+    # (a first frame announcing more than it carries legitimately leaves an SDU open)
+    _pending = 0
+
+    def _model(self, data):
+        if self._pending == 0:
+            if len(data) < 2:
+                # the SDU length itself is incomplete: what follows is undefined, stop judging
+                self._pending = -1
+                return
+            total = struct.unpack_from('<H', data, 0)[0]
+            got = len(data) - 2
+            if got > total:
+                self._pending = 0      # overflow: the SDU is dropped (or the channel closed)
+            else:
+                self._pending = total - got
+        elif self._pending > 0:
+            if len(data) > self._pending:
+                self._pending = 0      # overflow
+            else:
+                self._pending -= len(data)
+
     async def before_round(self):
         if self.open is None:
             res = await self.atk.open_le_coc(ECHO_PSM_LE, credits=200)
             if isinstance(res, str):
                 raise HarnessError(f'cannot open the target channel: {res}')
             self.open = res
+            self._pending = 0
 
-    def tx(self, data):
-        if self.open:
-            self.atk.send(self.open[1], data)
+    async def reference(self):
+        bad = []
+        if self.open and self._pending >= 0:
+            my, dcid, vmtu, vmps, vcred = self.open
+            # complete the SDU that the hostile frames legitimately left open, if any
+            left = self._pending
+            if left > 1500:
+                # completing it would make the echo server send more than the credits this peer
+                # granted: leave this channel alone and take a fresh one for the next round
+                self.open = None
+                self._pending = 0
+                return await super().reference()
+            while left > 0 and self.open:
+                n = min(left, max(1, vmps))
+                self.atk.send(dcid, bytes(n))
+                left -= n
+            self._pending = 0
+            await self.env.rg.quiesce()
+            if self.open:
+                self.n += 1
+                payload = b'C17 same channel %d' % self.n
+                e = await self.atk.coc_echo(my, dcid, payload[:max(1, min(len(payload), vmps - 2))])
+                if e is not None and self.open:
+                    bad.append(('same-channel-dead-after-garbage',
+                                f'credit-based channel {my:#x}->{dcid:#x} stays CONNECTED but a well-formed SDU sent after '
+                                f'the hostile frames (and after completing any SDU they left open) is not echoed: {e}'))
+                    # do not keep using a channel in an unknown state
+                    self.open = None
+        return bad + await super().reference()
 
 
 class HciDriver(Driver):
